@@ -94,6 +94,19 @@ pub fn packed_families() -> Vec<Fam> {
     for n in [15usize, 16, 17, 19, 31, 32, 33, 34, 35, 36] {
         v.push(fam(&format!("m4-minlen{}", n), vec![long(n, 1), long(n, 5), long(n + 1, 9), long(n, 13)]));
     }
+    // Rabin-Karp buckets (hash of the first minimum_len bytes, base 2, 64
+    // buckets): two patterns with the SAME window hash around one whose hash
+    // differs by a multiple of 64, in buckets of exactly 3, 4 and 5 entries,
+    // for window lengths 1..=4 (a +-64 / 32 / 16 / 8 step in the first byte)
+    for (m, x, y) in [(1usize, "a", "!"), (2, "ab", "Ab"), (3, "abc", "qbc"), (4, "abcd", "ibcd")] {
+        let xl = format!("{}x", x);
+        let yl = format!("{}y", y);
+        let xll = format!("{}xy", x);
+        v.push(fam(&format!("rk-m{}-bucket3", m), vec![b(&xl), b(y), b(x)]));
+        v.push(fam(&format!("rk-m{}-bucket3-longest", m), vec![b(x), b(&yl), b(&xll)]));
+        v.push(fam(&format!("rk-m{}-bucket4", m), vec![b(&xl), b(y), b(x), b(&yl)]));
+        v.push(fam(&format!("rk-m{}-bucket5", m), vec![b(&xll), b(y), b(&xl), b(&yl), b(x)]));
+    }
     v.push(fam("m4-len65-66", vec![long(65, 1), long(66, 5)]));
     v.push(fam("m4-len64-80", vec![long(64, 2), long(80, 9)]));
     v.push(fam("m4-len129-200", vec![long(129, 3), long(200, 11), long(130, 3)]));
@@ -1028,6 +1041,22 @@ pub fn prefilter_families() -> Vec<PFam> {
     ]
 }
 
+/// Further families used by C05 only (not fed to the E1 universes): a
+/// pattern listed directly after one of its proper extensions / before it,
+/// with the longer one's rare byte beyond the end of the shorter one.
+pub fn c05_extra_families() -> Vec<PFam> {
+    vec![
+        pfam("ext-then-prefix", vec![b("status_z"), b("status")], false),
+        pfam("prefix-then-ext", vec![b("status"), b("status_z")], false),
+        pfam("ext-then-prefix-3", vec![b("eeeez"), b("eeee"), b("tq")], false),
+        pfam("ext-then-prefix-chain", vec![b("etaq"), b("eta"), b("et"), b(" j")], false),
+        pfam("ext-prefix-ext", vec![b("tez"), b("te"), b("teq")], false),
+        pfam("ci-ext-then-prefix", vec![b("STATUS_Z"), b("status")], true),
+        pfam("ci-prefix-then-ext", vec![b("Status"), b("sTATUS_q")], true),
+        pfam("same-then-same", vec![b("ez"), b("ez"), b("tq")], false),
+    ]
+}
+
 const AKINDS: [AhoCorasickKind; 3] = [AhoCorasickKind::NoncontiguousNFA, AhoCorasickKind::ContiguousNFA, AhoCorasickKind::DFA];
 
 fn akind_name(k: AhoCorasickKind) -> &'static str {
@@ -1192,6 +1221,14 @@ fn pcores(f: &PFam, thorough: bool) -> Vec<Vec<u8>> {
                     v.push(x);
                 }
             }
+            for &c in sig.iter().take(3) {
+                for d in [0usize, 1, 5] {
+                    let mut x = p.clone();
+                    x.extend(std::iter::repeat(fl).take(d));
+                    x.push(c);
+                    v.push(x);
+                }
+            }
             for q in f.pats.iter().take(5) {
                 // an occurrence of p, a gap, an occurrence of q
                 let mut x = p.clone();
@@ -1228,6 +1265,11 @@ fn pcores(f: &PFam, thorough: bool) -> Vec<Vec<u8>> {
                 x.extend(std::iter::repeat(fl).take(d));
                 x.extend_from_slice(p);
                 v.push(x);
+                // ... and the trigger byte at the same distances AFTER it
+                let mut y = p.clone();
+                y.extend(std::iter::repeat(fl).take(d));
+                y.push(c);
+                v.push(y);
             }
         }
         if f.ci {
@@ -1245,7 +1287,8 @@ fn pcores(f: &PFam, thorough: bool) -> Vec<Vec<u8>> {
 
 pub fn run_c05(rep: &Report) -> i32 {
     let t = rep.thorough();
-    let fams = prefilter_families();
+    let mut fams = prefilter_families();
+    fams.extend(c05_extra_families());
     struct W {
         f: usize,
         kind: Kind,
